@@ -10,7 +10,7 @@
 (*   b.red       : set of serial numbers flagged redelivered               *)
 (*   b.nexttag   : channel id -> last delivery tag handed out              *)
 (*                                                                         *)
-(* Two users: BrokerMC (model checking of the broker rules themselves) and *)
+(* Two users: MC_Broker (model checking of the broker rules themselves) and *)
 (* Trace (every broker step of a recorded run of the real engine on the    *)
 (* simulated broker must be one of these transitions -- which validates    *)
 (* the simulator against this specification on every trace).              *)
